@@ -25,7 +25,7 @@ def _job(args):
     try:
         out = []
         for k in vt_common.KINDS:
-            f = vt_common.judge(scn, allowed, k, watchdog=5.0, tick=TICK if k == "hist" else 1.0)
+            f = vt_common.judge(scn, allowed, k, watchdog=5.0, tick=TICK if k in ("hist", "histn") else 1.0)
             if f:
                 f["max_spinning"] = 1
                 out.append(f)
